@@ -24,7 +24,7 @@ META = dict(
     outside="mutation through private attributes other than the ones a user can reach with add / remove / add_annotator / merge(in_place)",
     stubs=["cvxpy = contract stub", "np.random = nondeterministic RNG stub", "ThreadPoolExecutor = deferred executor", "alignment methods replaced by spies inside compute_gamma (their own non-interference is checked directly)"],
     assumptions=["segments longer than SEGMENT_PRECISION", "coordinates and gap / duration draws within [-64, 64]"],
-    cfg_budget_s=dict(quick=240, thorough=1700),
+    cfg_budget_s=dict(quick=240, thorough=900),
 )
 
 
@@ -110,8 +110,9 @@ def mutate_and_compare(ns, ctx, victim, other, tag, rz):
     before = snap(other)
     MUT[0] += 1
     s_, e_ = core.const(1000 + 3 * MUT[0]), core.const(1002 + 3 * MUT[0])       # far from every (bounded) unit: no ordering forks
-    ann = list(victim._annotations.keys())[0] if len(victim._annotations) else "fresh_annotator"
-    victim.add(ann, Segment(s_, e_), "NEW_LABEL")
+    anns = list(victim._annotations.keys()) or ["fresh_annotator"]
+    for k_, ann in enumerate(anns):         # every annotator, including those without any unit
+        victim.add(ann, Segment(s_ + 100 * k_, e_ + 100 * k_), "NEW_LABEL")
     victim.add_annotator("brand_new_annotator")
     first = next(((a, u) for a, u in victim if u.annotation != "NEW_LABEL"), None)
     if first is not None:
@@ -302,6 +303,7 @@ def harness(cfg, ns):
 
     def h_derive(ctx):
         c, info, rz = base(ctx, (2, 1))
+        c.add_annotator("zz_no_units")        # an annotator that has no unit (yet)
         other, info2 = common.build_continuum(ns, ctx, (1,), coords="sym", labels=["q"], min_dur=1)
         s0 = snap(c)
         cp = c.copy()
@@ -344,8 +346,8 @@ def replay(case):
         return _copy.deepcopy({k: v for k, v in D.__dict__.items() if k not in ("d_mat", "positional_dissim", "categorical_dissim")}) if D is not None else None
 
     def mutate(v):
-        a = list(v._annotations.keys())[0] if len(v._annotations) else "fresh"
-        v.add(a, Segment(1000.0, 1002.0), "NEW_LABEL")
+        for k_, a in enumerate(list(v._annotations.keys()) or ["fresh"]):
+            v.add(a, Segment(1000.0 + 100 * k_, 1002.0 + 100 * k_), "NEW_LABEL")
         v.add_annotator("brand_new_annotator")
         first = next(((x, u) for x, u in v if u.annotation != "NEW_LABEL"), None)
         if first:
@@ -431,6 +433,8 @@ def replay(case):
             if S(gen) != g1:
                 bad.append("mutating the reference changed a generated corpus")
         elif kind == "derive":
+            c.add_annotator("zz_no_units")
+            s0 = S(c)
             other = pa.Continuum()
             other.add("zz", Segment(0.0, 2.0), "q")
             for nm, f in (("copy", lambda: c.copy()), ("merge", lambda: c.merge(other)), ("+", lambda: c + other), ("copy_flush", lambda: c.copy_flush())):
